@@ -1,6 +1,8 @@
 import FlVerif.Spec.Pipeline
 import FlVerif.Op.Engine
 import FlVerif.Lemmas.CodeEngine
+import FlVerif.Lemmas.CodeBlockActInfer   -- `Engine.infer_type`, `Variable.highest_membership`, `Variable.fuzzify`
+import FlVerif.Lemmas.CodeBlockActInferLaws
 import FlVerif.Lemmas.CodeDegree   -- `Antecedent.activation_degree` = `Op.degree` (theorem `C06.code_activationDegree`)
 
 /-! # C01 — Engine output equals the documented inference pipeline
@@ -305,6 +307,16 @@ theorem activate_is_component (F : Fn α) (ins : List (InVar α)) (outs : List (
     all_goals simp [h]
   · simp
 
+/-- a block without an activation method cannot be activated: the model of `RuleBlock.activate` fails, as the code
+    raises (`C08.code_blockActivate`: the `ValueError` of the translated method) -/
+theorem activateBlock_missing (F : Fn α) (ins : List (InVar α)) (outs : List (OutVar α)) (b : Block α) (fz : Fuzzy α)
+    (h : b.activation = .missing) : activateBlock F ins outs b fz = none := by
+  have hv : activateViaComponent F ins outs b fz = none := by simp [activateViaComponent, h, toMethod]
+  unfold activateBlock
+  cases hf : feedbackFree outs b
+  · simp [h]
+  · simpa using hv
+
 /-- antecedents: the C06 evaluator `Op.degree` on the engine's environment -/
 theorem degree_is_component (F : Fn α) (e : Env α) (conj disj : Option String) (a : Ante)
     (h : resolves F e conj disj a = true) :
@@ -318,6 +330,84 @@ theorem value_is_cascade (ov : OutVar α) (raw : X α) (st : Op.OutState α) :
   cases h : ov.enabled <;> simp [Op.defuzzify, cascadeCfg, h]
 
 end refinement
+
+/-! ## `Engine.infer_type`, `Variable.highest_membership`, `Variable.fuzzify`
+
+Models: `Op/Infer.lean`.  An output variable is seen through its defuzzifier (`Op.Infer.Defuzz`: none, integral, or
+weighted with the result of `defuzzifier.infer_type(variable)` - a type, or `TypeError` for terms of several types), a
+rule block through "its implication is the AlgebraicProduct". -/
+
+open Op.Infer in
+/-- **Tie A (code → model).**  `Gen.Code.Engine_infer_type` is regenerated from the source of `Engine.infer_type` on
+    every run (the list `reasons` is not translated).  For every engine it raises where the decision table
+    `Op.Infer.inferType` does (`TypeError`) and otherwise returns the model's type. -/
+theorem code_inferType (e : Op.Infer.Engine) :
+    match inferType e with
+    | .error err => Gen.Code.Engine_infer_type.run e {} = .error err
+    | .ok t => ∃ σ, Gen.Code.Engine_infer_type.run e {} = .ok σ ∧ σ.ret = some t :=
+  Op.Infer.code_inferType e
+
+open Op.Infer in
+/-- `Unknown` exactly for an engine without output variables or with an output variable without defuzzifier (engines
+    whose weighted output variables have terms of one type each; `Unknown` implies the right-hand side for every engine:
+    `Op.Infer.inferType_unknown_only`) -/
+theorem inferType_unknown_iff (e : Op.Infer.Engine) (hw : WellTyped e) :
+    inferType e = .ok .unknown ↔ e.outputs = [] ∨ Defuzz.none ∈ e.outputs :=
+  Op.Infer.inferType_unknown_iff e hw
+
+open Op.Infer in
+/-- `Mamdani` or `Larsen` exactly when there is an output variable and every output variable has an integral defuzzifier -/
+theorem inferType_integral_iff (e : Op.Infer.Engine) :
+    (inferType e = .ok .mamdani ∨ inferType e = .ok .larsen) ↔
+      (e.outputs ≠ [] ∧ ∀ d ∈ e.outputs, d = Defuzz.integral) :=
+  Op.Infer.inferType_integral_iff e
+
+open Op.Infer in
+/-- … and then `Larsen` exactly when there is a rule block and every rule block's implication is the AlgebraicProduct -/
+theorem inferType_larsen_iff (e : Op.Infer.Engine) (hne : e.outputs ≠ []) (hall : ∀ d ∈ e.outputs, d = Defuzz.integral) :
+    inferType e = .ok .larsen ↔ (e.blocks ≠ [] ∧ ∀ b ∈ e.blocks, b.product = true) :=
+  Op.Infer.inferType_larsen_iff e hne hall
+
+open Op.Infer in
+/-- a type is returned for every engine whose weighted output variables have terms of one type each -/
+theorem inferType_total (e : Op.Infer.Engine) (h : WellTyped e) : ∃ t, inferType e = .ok t :=
+  Op.Infer.inferType_total e h
+
+open Op.Infer in
+/-- the `TypeError` of a weighted output variable with terms of several types depends on the order of the output
+    variables (observed on the implementation: output variables [weighted with Constant + Triangle terms, no
+    defuzzifier] raise `TypeError`, in the other order the result is `Unknown`; after an integral one `Hybrid`) -/
+theorem inferType_order_dependent :
+    inferType ⟨[.weighted none, .none], []⟩ = .error .internal ∧
+    inferType ⟨[.none, .weighted none], []⟩ = .ok .unknown ∧
+    inferType ⟨[.integral, .weighted none], []⟩ = .ok .hybrid :=
+  Op.Infer.inferType_order_dependent
+
+open Op.Infer in
+/-- **Tie A (code → model).**  `Variable.highest_membership` (terms of any type `T`; `mu t` is what
+    `term.membership(x)` returns or raises; an `Activated` is the pair of the term and the degree): the exception of
+    the model `Op.Infer.highestMembership` (any exception of a membership function but `ValueError`) or its result. -/
+theorem code_highestMembership {T : Type} [Inhabited T] (mu : T → Py.M (X Rat)) (terms : List T) :
+    match highestMembership mu terms with
+    | .error err => Gen.Code.Variable_highest_membership.run mu terms {} = .error err
+    | .ok r => ∃ σ, Gen.Code.Variable_highest_membership.run mu terms {} = .ok σ ∧ σ.ret = r :=
+  Op.Infer.code_highestMembership mu terms
+
+open Op.Infer in
+/-- the result of `highest_membership` for membership functions that do not raise: `None` iff no term has a positive
+    degree; otherwise a term of the variable with its degree, positive, and exceeded by no term of the variable -/
+theorem highestMembership_spec {τ : Type} (f : τ → X Rat) (terms : List τ) :
+    ∃ r, highestMembership (fun t => .ok (f t)) terms = .ok r ∧ HighestOf f terms r :=
+  Op.Infer.highestMembership_spec f terms
+
+open Op.Infer in
+/-- **Tie A (code → model).**  `Variable.fuzzify` for a scalar `x` (`fv a padding` is the text
+    `Activated.fuzzy_value(padding)`): the texts of the activated terms concatenated, the first without padding. -/
+theorem code_fuzzify {T : Type} [Inhabited T] (mu : T → Py.M (X Rat)) (fv : T × X Rat → Bool → String) (terms : List T) :
+    match fuzzify mu fv terms with
+    | .error err => Gen.Code.Variable_fuzzify.run mu fv terms {} = .error err
+    | .ok r => ∃ σ, Gen.Code.Variable_fuzzify.run mu fv terms {} = .ok σ ∧ σ.ret = some r :=
+  Op.Infer.code_fuzzify mu fv terms
 
 /-! ## non-vacuity -/
 example : rules (S := List Nat) (D := Nat)
